@@ -7,15 +7,18 @@ import Vflow.Gen.CacheKey
 /-!
 # C04 — data is decoded only with the same exporter's latest template
 
-The concrete cache is a map keyed by the 32-bit FNV-1 hash of `addr ‖ be16 id`
-(`ipfix/memcache.go`, `netflow/v9/memcache.go`; the same `Cache` serves both decoder models).
-The abstract specification is a map keyed by `(addr, id)`: `latest h a id`.
+The concrete cache (`ipfix/memcache.go`, `netflow/v9/memcache.go`; the same `Cache` serves both decoder models) is 32
+shard maps keyed by the hex text of `addr ‖ be16 id`, the shard chosen by the 32-bit FNV-1 hash of the same octets
+(`cacheKey = (shardOf, keyText)`).  The abstract specification is a map keyed by `(addr, id)`: `latest h a id`.
 
-The full-strength statement ("for every history, `lookup (run h) a id = latest h a id`") is FALSE of
-the code: two distinct `(exporter, id)` pairs with equal hash share one entry
-(`hash_collision_counterexample`, replayed on the real caches of both protocols by the `*-hist`
-correspondence kinds in every run: known finding K1).  What is proved is `refinement_partial`,
-under the explicit hypothesis `NoCollision`.
+Since the K1 repair (F26) the full-strength statement holds: for every history of announcements — any exporters, any
+16-bit template ids, colliding under the hash or not — `lookup (run h) a id = latest h a id` (`refinement`), and an
+announcement by another exporter never changes a lookup (`other_exporter_no_influence`, no hypothesis at all on the
+ids).  Both rest on `cacheKey_inj`: the key determines the pair.  Before the repair the maps were keyed by the hash
+alone (`oldCacheKey`), for which the statement is false: `hash_collision_counterexample` keeps that fact about the OLD
+key function, and `colliding_pair_separate` shows the same pair holding two entries under the new one (the pair is the
+corpus witness `corpus/C04/*-hist--K1-hash-collision.txt`, replayed on the real caches of both protocols; the `*-hist`
+kinds search fresh colliding pairs in every run, which must now decode correctly).
 -/
 namespace Vflow.C04
 open Vflow
@@ -34,15 +37,17 @@ def latest : List Ann → Bytes → Nat → Option Template
     | some t => some t
     | none => if e.1 = a ∧ e.2.1 = id then some e.2.2 else none
 
-/-- no announcement of the history collides with the key `(a, id)` under the cache's hash -/
+/-- no announcement of the history has the cache key of `(a, id)` without being an announcement of `(a, id)` -/
 def NoCollision (h : List Ann) (a : Bytes) (id : Nat) : Prop :=
   ∀ e ∈ h, cacheKey e.1 e.2.1 = cacheKey a id → e.1 = a ∧ e.2.1 = id
 
-/-- **C04 (refinement, partial)**: for every starting cache and every history whose keys do not
-collide with `(a, id)` under FNV-1, the concrete lookup returns exactly the latest template announced
-by that exporter under that id — or what the starting cache held if there is none.
-*Partial*: the hypothesis `NoCollision` is not implied by anything the code checks (finding K1). -/
-theorem refinement_partial (h : List Ann) (a : Bytes) (id : Nat) :
+/-- template ids are 16-bit: `uint16` in `TemplateRecord.TemplateID`, `SetHeader.SetID`, `RPCRequest.ID` and in the
+signatures of `insert` / `retrieve` (a typing condition of the code, not an assumption about the input) -/
+def Ids16 (h : List Ann) : Prop := ∀ e ∈ h, e.2.1 < 65536
+
+/-- the refinement for arbitrary natural-number ids, under the hypothesis that used to be the gap (kept: the theorem
+below discharges the hypothesis for everything the code can represent) -/
+theorem refinement_of_no_collision (h : List Ann) (a : Bytes) (id : Nat) :
     ∀ c : Cache, NoCollision h a id →
       (runAnn c h).lookup a id = (match latest h a id with | some t => some t | none => c.lookup a id) := by
   induction h with
@@ -64,33 +69,91 @@ theorem refinement_partial (h : List Ann) (a : Bytes) (id : Nat) :
       · have : ¬ (e.1 = a ∧ e.2.1 = id) := fun hh => hk (by rw [hh.1, hh.2])
         simp [hk, this]
 
-/-- **C04 (no interference, partial)**: announcing under another key never changes what a lookup for
-`(a, id)` returns, unless the two keys collide under the hash -/
-theorem other_exporter_no_influence_partial (c : Cache) (a a' : Bytes) (id id' : Nat) (t : Template)
-    (h : cacheKey a id ≠ cacheKey a' id') :
+/-- **no two pairs share a key**: with 16-bit ids the hypothesis `NoCollision` holds of every history (false of the
+hash-only key: `hash_collision_counterexample`) -/
+theorem no_collision (h : List Ann) (a : Bytes) (id : Nat) (hh : Ids16 h) (hid : id < 65536) : NoCollision h a id :=
+  fun e he hk => cacheKey_inj (hh e he) hid hk
+
+/-- **C04 (refinement)**: for every starting cache and every history of announcements — any number of exporters, any
+addresses (4-octet, 16-octet, any length), any 16-bit template ids, re-announcements, pairs that collide under FNV-1
+included — the concrete lookup returns exactly the latest template announced by that exporter under that id, or what
+the starting cache held if there is none.  No hypothesis about the hash (was `refinement_partial` with `NoCollision`). -/
+theorem refinement (h : List Ann) (a : Bytes) (id : Nat) (hh : Ids16 h) (hid : id < 65536) (c : Cache) :
+    (runAnn c h).lookup a id = (match latest h a id with | some t => some t | none => c.lookup a id) :=
+  refinement_of_no_collision h a id c (no_collision h a id hh hid)
+
+/-- from the empty cache: the lookup IS the specification -/
+theorem refinement_empty (h : List Ann) (a : Bytes) (id : Nat) (hh : Ids16 h) (hid : id < 65536) :
+    (runAnn [] h).lookup a id = latest h a id := by
+  rw [refinement h a id hh hid]
+  cases latest h a id <;> rfl
+
+/-- **C04 (no interference)**: an announcement by ANOTHER exporter — whatever its template id, whatever the hash of the
+two keys — never changes what a lookup for `(a, id)` returns (was `…_partial` with hypothesis
+`cacheKey a id ≠ cacheKey a' id'`) -/
+theorem other_exporter_no_influence (c : Cache) (a a' : Bytes) (id id' : Nat) (t : Template) (h : a ≠ a') :
     (c.insert a' id' t).lookup a id = c.lookup a id := by
-  rw [Cache.lookup_insert]; simp [h]
+  rw [Cache.lookup_insert]
+  have : cacheKey a id ≠ cacheKey a' id' := fun hk => h (cacheKey_addr hk)
+  simp [this]
+
+/-- the same exporter announcing under another id does not change the lookup either -/
+theorem other_id_no_influence (c : Cache) (a : Bytes) (id id' : Nat) (t : Template)
+    (hid : id < 65536) (hid' : id' < 65536) (h : id ≠ id') :
+    (c.insert a id' t).lookup a id = c.lookup a id := by
+  rw [Cache.lookup_insert]
+  have : cacheKey a id ≠ cacheKey a id' := fun hk => h (cacheKey_inj hid hid' hk).2
+  simp [this]
 
 /-- a re-announcement replaces the earlier definition for the same exporter and id -/
 theorem reannounce_replaces (c : Cache) (a : Bytes) (id : Nat) (t₁ t₂ : Template) :
     ((c.insert a id t₁).insert a id t₂).lookup a id = some t₂ := by
   rw [Cache.lookup_insert]; simp
 
-/-- the negation of the full-strength statement, on a concrete witness: exporters 10.118.203.99
-(template 1039) and 10.109.201.102 (template 3119) have the same cache key, so after B announces,
-a lookup for A's key returns B's template (finding K1; the pair was found by the harness's birthday
-search and is replayed on the real `ipfix` and `netflow9` caches) -/
+/-! ## The old key function, and the pair that collided under it -/
+
+/-- the caches before the repair: one association list keyed by `oldCacheKey` (the hash alone) -/
+def oldInsert (c : List (Nat × Template)) (a : Bytes) (id : Nat) (t : Template) : List (Nat × Template) :=
+  (oldCacheKey a id, t) :: c.filter (fun e => e.1 ≠ oldCacheKey a id)
+def oldLookup (c : List (Nat × Template)) (a : Bytes) (id : Nat) : Option Template :=
+  (c.find? (fun e => e.1 = oldCacheKey a id)).map (·.2)
+
+/-- the negation of the full-strength statement **for the OLD key function**, on a concrete witness: exporters
+10.118.203.99 (template 1039) and 10.109.201.102 (template 3119) have the same hash, so with maps keyed by the hash
+alone a lookup for A's key returned B's template after B announced (K1, repaired by F26; the pair was found by the
+harness's birthday search) -/
 theorem hash_collision_counterexample :
-    cacheKey [10, 118, 203, 99] 1039 = cacheKey [10, 109, 201, 102] 3119 ∧
+    oldCacheKey [10, 118, 203, 99] 1039 = oldCacheKey [10, 109, 201, 102] 3119 ∧
     ([10, 118, 203, 99], 1039) ≠ (([10, 109, 201, 102] : Bytes), 3119) ∧
     ∀ (tA tB : Template),
-      Cache.lookup (Cache.insert (Cache.insert [] [10, 118, 203, 99] 1039 tA) [10, 109, 201, 102] 3119 tB)
+      oldLookup (oldInsert (oldInsert [] [10, 118, 203, 99] 1039 tA) [10, 109, 201, 102] 3119 tB)
         [10, 118, 203, 99] 1039 = some tB := by
   refine ⟨by decide, by decide, ?_⟩
   intro tA tB
-  rw [Cache.lookup_insert]
-  have : cacheKey [10, 118, 203, 99] 1039 = cacheKey [10, 109, 201, 102] 3119 := by decide
-  simp [this]
+  have : oldCacheKey [10, 118, 203, 99] 1039 = oldCacheKey [10, 109, 201, 102] 3119 := by decide
+  simp [oldLookup, oldInsert, this]
+
+/-- **the colliding pair now keeps two separate entries**: the two keys fall into the same shard (their hashes are
+equal) but have different key texts, `0a76cb63040f` and `0a6dc9660c2f`; after both exporters announced, each lookup
+returns its own exporter's template, in either order of the announcements -/
+theorem colliding_pair_separate :
+    shardOf [10, 118, 203, 99] 1039 = shardOf [10, 109, 201, 102] 3119 ∧
+    keyText [10, 118, 203, 99] 1039 = str "0a76cb63040f" ∧ keyText [10, 109, 201, 102] 3119 = str "0a6dc9660c2f" ∧
+    ∀ (tA tB : Template),
+      Cache.lookup (Cache.insert (Cache.insert [] [10, 118, 203, 99] 1039 tA) [10, 109, 201, 102] 3119 tB)
+        [10, 118, 203, 99] 1039 = some tA ∧
+      Cache.lookup (Cache.insert (Cache.insert [] [10, 118, 203, 99] 1039 tA) [10, 109, 201, 102] 3119 tB)
+        [10, 109, 201, 102] 3119 = some tB ∧
+      Cache.lookup (Cache.insert (Cache.insert [] [10, 109, 201, 102] 3119 tB) [10, 118, 203, 99] 1039 tA)
+        [10, 109, 201, 102] 3119 = some tB := by
+  refine ⟨by decide, by decide +kernel, by decide +kernel, ?_⟩
+  intro tA tB
+  have hne : cacheKey [10, 118, 203, 99] 1039 ≠ cacheKey [10, 109, 201, 102] 3119 :=
+    fun hk => absurd (cacheKey_addr hk) (by decide)
+  refine ⟨?_, ?_, ?_⟩
+  · rw [Cache.lookup_insert, Cache.lookup_insert]; simp [hne]
+  · rw [Cache.lookup_insert]; simp
+  · rw [Cache.lookup_insert, Cache.lookup_insert]; simp [hne.symm]
 
 /-! ## The decoders use exactly this lookup, and unknown templates yield no records -/
 
@@ -137,9 +200,10 @@ theorem v9_data_uses_lookup (addr : Bytes) (sid len start fuel : Nat) (st : V9.S
 
 /-! ## Obligations over regenerated facts: how the code keys and consults the cache
 
-`cacheKey addr id = fnv1 (addr ++ be16 id)` in the model is what `getShard` computes (32-bit FNV-1
-over the exporter address followed by the big-endian template id; shard = hash mod shardNo; the map
-is keyed by the hash itself), in both cache files; the decoders look templates up and store them under
+`cacheKey addr id = (fnv1 (addr ++ be16 id) % 32, hex (addr ++ be16 id))` in the model is what `getShard` computes
+(32-bit FNV-1 over the exporter address followed by the big-endian template id; shard = hash mod shardNo; the key
+inside the shard's map is `hex.EncodeToString` of the same octets), in both cache files; the maps are
+`map[string]Data`, and `insert` / `retrieve` use the shard and the key `getShard` returned and nothing else; the decoders look templates up and store them under
 (set id / template id, the datagram's source address), and the peer-RPC path asks for and stores the
 template under exactly the requesting (id, address). A change to any of these statements is a failed
 obligation. -/
@@ -147,10 +211,31 @@ obligation. -/
 def expectedGetShard : List String :=
   ["b := make([]byte, 2)", "binary.BigEndian.PutUint16(b, id)", "key := append(addr, b...)",
    "hash := fnv.New32()", "hash.Write(key)", "hSum32 := hash.Sum32()",
-   "return m[uint(hSum32)%uint(shardNo)], hSum32"]
+   "return m[uint(hSum32)%uint(shardNo)], hex.EncodeToString(key)"]
 
 theorem gen_cache_key :
     Gen.CacheKey.ipfixGetShard = expectedGetShard ∧ Gen.CacheKey.nf9GetShard = expectedGetShard := by
+  decide +kernel
+
+def expectedInsert : List String :=
+  ["shard, key := m.getShard(id, addr)", "shard.Lock()", "defer shard.Unlock()",
+   "shard.Templates[key] = Data{tr, time.Now().Unix()}"]
+def expectedRetrieve : List String :=
+  ["shard, key := m.getShard(id, addr)", "shard.RLock()", "defer shard.RUnlock()",
+   "v, ok := shard.Templates[key]", "return v.Template, ok"]
+
+/-- the shard maps are keyed by the string `getShard` returns (`map[string]Data`, not the 32-bit hash: K1 / F26);
+`insert` stores and `retrieve` reads under exactly (the shard, the key) of `getShard(id, addr)`; nothing else in the
+two cache files indexes a `Templates` map or calls `getShard`; `hex`, `fnv`, `binary` are the standard packages -/
+theorem gen_cache_key_use :
+    Gen.CacheKey.ipfixGetShardSig = "func(id uint16, addr net.IP) (*TemplatesShard, string)" ∧
+    Gen.CacheKey.nf9GetShardSig = "func(id uint16, addr net.IP) (*TemplatesShard, string)" ∧
+    Gen.CacheKey.ipfixMapType = "map[string]Data" ∧ Gen.CacheKey.nf9MapType = "map[string]Data" ∧
+    Gen.CacheKey.ipfixInsert = expectedInsert ∧ Gen.CacheKey.nf9Insert = expectedInsert ∧
+    Gen.CacheKey.ipfixRetrieve = expectedRetrieve ∧ Gen.CacheKey.nf9Retrieve = expectedRetrieve ∧
+    Gen.CacheKey.ipfixOtherKeyUses = [] ∧ Gen.CacheKey.nf9OtherKeyUses = [] ∧
+    (∀ p ∈ ["\"encoding/hex\"", "\"hash/fnv\"", "\"encoding/binary\""],
+      p ∈ Gen.CacheKey.ipfixImports ∧ p ∈ Gen.CacheKey.nf9Imports) := by
   decide +kernel
 
 theorem gen_cache_calls :
@@ -165,8 +250,9 @@ theorem gen_cache_calls :
 messages (`Wire.*.expected`), i.e. through the concrete lookup: a data set is well formed when the
 template it was encoded with is what the cache returns for (this exporter, this id) at that point.
 Under that premise every message of the history decodes to exactly its expected records — whatever
-other exporters announced in between. (With a hash collision the premise fails for the victim's data
-set: that is K1, not hidden.) -/
+other exporters announced in between. (By `refinement` the concrete lookup is the latest announcement of
+that exporter under that id, so the premise says: encoded with the exporter's latest template. Before the
+K1 repair it failed for the victim's data set of a colliding pair.) -/
 
 /-- decode a history of (exporter address, message) pairs in order -/
 def ipfixRun (c : Cache) : List (Bytes × Wire.Ipfix.Msg) → List Ipfix.Result × Cache
